@@ -91,11 +91,17 @@ func (st *SymbolToken) Equal(o *SymbolToken) bool {
 	return false
 }
 
-// Parses text of the form '$n' for some integer n.
+// Parses text of the form '$n' for some integer n: a '$' followed by one or more
+// decimal digits (and nothing else: no sign) whose value fits an int64.
 func symbolIdentifier(symbolText string) (int64, bool) {
 	if len(symbolText) > 1 && symbolText[0] == '$' {
-		if sid, err := strconv.Atoi(symbolText[1:]); err == nil {
-			return int64(sid), true
+		for i := 1; i < len(symbolText); i++ {
+			if symbolText[i] < '0' || symbolText[i] > '9' {
+				return SymbolIDUnknown, false
+			}
+		}
+		if sid, err := strconv.ParseInt(symbolText[1:], 10, 64); err == nil {
+			return sid, true
 		}
 	}
 
